@@ -19,6 +19,9 @@ import (
 
 // fail: may this stub call fail?  At most two failures are injected per run (any two steps).
 func fail(label string) bool {
+	if osCalm {
+		return false
+	}
 	if osFailures >= 2 {
 		return false
 	}
@@ -32,6 +35,7 @@ func fail(label string) bool {
 
 var (
 	osFailures     = 0
+	osCalm         = false // C15: the operating system always succeeds and the template data is recorded
 	osTrace        []string // every mutating call, in order
 	osAllOK        = true   // no stub has reported a failure so far
 	osOpened       []string // files opened for writing
@@ -52,6 +56,9 @@ func (s stubInfo) IsDir() bool        { return s.dir }
 func (s stubInfo) Sys() any           { return nil }
 
 func stubStat(name string) (os.FileInfo, error) {
+	if osCalm {
+		return stubInfo{dir: true}, nil
+	}
 	switch verif.Pick("stat", 4) {
 	case 0:
 		return stubInfo{dir: true}, nil
@@ -96,6 +103,9 @@ func stubWriteFile(n string, d []byte, p os.FileMode) error { osForbidden = true
 func stubMkdirAll(name string, perm os.FileMode) error { osForbidden = true; return nil }
 
 func stubIsIDValid(name string) bool {
+	if osCalm {
+		return true
+	}
 	if verif.Pick("idvalid", 2) == 1 {
 		stubIDValid = false
 		osAllOK = false
@@ -115,7 +125,11 @@ func stubRender(g *generator, filename string, data any) error {
 	return nil
 }
 
-func stubExecute(w any, data any) error {
+func stubExecute(tmpl any, w any, data any) error {
+	if osCalm {
+		c15Record(data)
+		return nil
+	}
 	if fail("execute") {
 		return errStubOther // a write error in the middle of a file
 	}
